@@ -15,7 +15,10 @@ import (
 	sdkmath "cosmossdk.io/math"
 	sdk "github.com/cosmos/cosmos-sdk/types"
 
+	authtypes "github.com/cosmos/cosmos-sdk/x/auth/types"
+
 	appmint "github.com/sunriselayer/sunrise/app/mint"
+	litypes "github.com/sunriselayer/sunrise/x/liquidityincentive/types"
 
 	"svh/sim"
 )
@@ -139,6 +142,23 @@ func mintHistory(e *Env, h int) bool {
 		lastRun = -1
 	}
 	for k := 0; k < steps; k++ {
+		// governance changes the ratio at run time (values on both sides of both ends of [0,1]): a refused update leaves the
+		// ratio alone; an accepted one governs every later mint
+		if k == 3 || k == 9 {
+			nr := []string{"-0.5", "-0.000000000000000001", "0", "1", "1.000000000000000001", "1.5", "3", "0.25", "-1"}[r.N(9)]
+			nrDec := sdkmath.LegacyMustNewDecFromStr(nr)
+			lp, _ := c.App.LiquidityincentiveKeeper.Params.Get(c.Ctx())
+			lp.StakingRewardRatio = nr
+			e.In("setratio %s", nrDec.BigInt())
+			_, err, p := c.Exec(&litypes.MsgUpdateParams{Authority: authtypes.NewModuleAddress("gov").String(), Params: lp})
+			if err == nil && p == nil {
+				e.Obs("ok")
+				ratio, ratioDec = nr, nrDec
+			} else {
+				e.Obs("err")
+			}
+			e.Stat("setratio." + nr)
+		}
 		var dt time.Duration
 		switch r.N(12) {
 		case 0:
